@@ -66,10 +66,14 @@ def idx0 : T → Option Int
   | .node k a _ l kids =>
     match k with
     | .AssignExpression | .BinaryExpression | .BracketExpression | .CallExpression | .ConditionalExpression
-    | .DotExpression | .ExpressionStatement | .FunctionStatement | .LabelledStatement | .SequenceExpression | .Program =>
-      -- node.go:53,93,134,155,175,194,664,725,769,393,951: first child's Idx0 (index panic on an empty list)
+    | .DotExpression | .ExpressionStatement | .FunctionStatement | .LabelledStatement | .SequenceExpression =>
+      -- node.go: first child's Idx0 (index panic on an empty list)
       match kids with
       | .nil => none
+      | .cons t _ => idx0 t
+    | .Program =>                                           -- Program.Idx0: an empty program starts at its file's base (`a`)
+      match kids with
+      | .nil => some a
       | .cons t _ => idx0 t
     | .UnaryExpression =>                                   -- node.go:452
       if l = 1 then (match kids with | .nil => none | .cons t _ => idx0 t) else some a
@@ -99,10 +103,12 @@ def idx1 : T → Option Int
     | .UnaryExpression => if l = 1 then (idx1Head kids).map (· + 2) else idx1Head kids                    -- :460
     | .VariableExpression => if kids.head.isAbsent then some (a + l) else idx1Head kids                   -- :483
     | .BranchStatement => if kids.head.isTnil then some (a + l) else idx1Head kids                        -- :551
-    | .CaseStatement => if kids.length ≥ 2 then idx1Last kids else none                                   -- :574 (Consequent[len-1])
+    | .CaseStatement =>                                                                                   -- CaseStatement.Idx1
+      if kids.length ≥ 2 then idx1Last kids else if kids.head.isAbsent then some (a + 7) else idx1Head kids
     | .IfStatement => if (kids.get 2).isAbsent then idx1Nth kids 1 else idx1Nth kids 2                    -- :751
     | .ReturnStatement => if kids.head.isAbsent then some (a + 6) else idx1Head kids                      -- :793
     | .TryStatement => if (kids.get 2).isAbsent then idx1Nth kids 1 else idx1Nth kids 2                   -- :860
+    | .Program => (match kids with | .nil => some a | _ => idx1Last kids)                                 -- Program.Idx1
     | _ => idx1Last kids   -- Assign, Binary, Conditional, Dot, FunctionLiteral(Body), Sequence, ExpressionStatement,
                            -- FunctionStatement, Catch, ForIn, For, Labelled, Throw, VariableStatement, While, With, Program
 def idx1Head : TS → Option Int
@@ -128,7 +134,7 @@ deriving DecidableEq, Repr
 mutual
 def walk : T → List Ev
   | .absent => []                                   -- walk.go:20 `if n == nil { return }`
-  | .tnil => [.enter none, .exit none]              -- typed nil passes the guard; the `case *X:` arm does `if n != nil`
+  | .tnil => []                                     -- the three pointer fields are tested before the call (walk.go: n.Label, n.Name, n.Catch)
   | .node k _ _ _ kids => .enter (some k) :: (walkList kids ++ [.exit (some k)])
 def walkList : TS → List Ev
   | .nil => []
